@@ -165,3 +165,20 @@ PUSHDOWN_TEXT = (" PD -- the leaf functions of the push-down layer (__command, _
                  "recorded once with the pending comments; the completion check never records anything; what a branch does not "
                  "mention keeps its value (frame). The composition of these steps over a whole token sequence is NOT proved (no "
                  "global refinement invariant): that is what the bounded enumeration stands in for.")
+
+
+def driver_units():
+    """Parser.parse as a driver over the step function's contract, for token lists of up to 3 tokens (comments included)"""
+    S = ("contracts.pushdown", "setup_driver")
+    out = []
+    for kinds in ((), ("token",), ("hash",), ("bracket",), ("token", "token"), ("hash", "token", "bracket"), ("token", "hash", "token"),
+                  ("token", "token", "token")):
+        out.append(U("PD.driver.%s" % ("-".join(kinds) or "empty"), "contracts.pushdown", "h_parse_driver", (kinds,), setup=S))
+    return out
+
+
+DRIVER_TEXT = (" P8 -- Parser.parse as a driver over the step function (cut by a contract that may accept, refuse, raise any of the "
+               "funnelled exception kinds and change the parser state arbitrarily), for token lists of up to 3 tokens with comments: "
+               "it never raises, returns True exactly when every token was accepted and nothing is left open, gives `line N: <text "
+               "of what was raised>` and a position triple on failure, hands every non-comment token to the step function once and "
+               "in order, and collects hash comments stripped.")
